@@ -63,3 +63,11 @@ Print Assumptions C20_fb.
 Theorem C20_magic : MBI_MAGIC = SPEC_MBI_MAGIC /\ HDR_MAGIC = SPEC_HDR_MAGIC.
 Proof. exact magics. Qed.
 Print Assumptions C20_magic.
+
+(* the cross-type impls on ANY symbolic value, canonical or not (TagType::Custom(5) can be written down although
+   from(5) never yields it): equality with an id or a number is equality of the numbers *)
+Theorem C20_eq_any : forall t i v,
+  eq_type_id t i = (u32_of_tagtype t =? u32_of_id i) /\ eq_id_type i t = (u32_of_id i =? u32_of_tagtype t) /\
+  eq_type_u32 t v = (u32_of_tagtype t =? v) /\ eq_u32_type v t = (u32_of_tagtype t =? v).
+Proof. exact eq_any. Qed.
+Print Assumptions C20_eq_any.
